@@ -16,7 +16,8 @@
    graph whose front part `up` is history-free (hypothesis up_hf).  Nodes for which that hypothesis is DISCHARGED by a
    machine-checked theorem about a model tied to the Go code:
        EventSequencer (C02: net effect + no panic)            - built into `graph`, theorem c01_sequencer_net_effect
-       IP set member index (C04: members exact, view form)    - c01_node_function_of_state_ipsetidx
+       IP set member index (C04: members exact, view form)    - c01_node_function_of_state_ipsetidx, and as a node of the
+                                                                abstract graph with its hf lemma: c01_ipset_index_node_hf
        label inheritance index (C07: index exact)             - c01_node_function_of_state_inherit, and as a node of the
                                                                 abstract graph with its hf lemma: c01_inherit_index_node_hf
        IP pool passthru (this directory, Passthru.v)          - c01_history_independent_pools: NO hypothesis left
@@ -34,7 +35,7 @@ From stdpp Require Import gmap.
 From Verif.Common Require Import Sync.
 From Verif.C02 Require Import Model Spec.
 From Verif.C01 Require Import Model Spec Compose Instances Passthru L3Reflag L3Meets RoutesPools.
-From Verif.C01 Require InstC04 InstC07 NodeC07.
+From Verif.C01 Require InstC04 InstC07 NodeC07 NodeC04.
 
 (* --- the graph model: a synchronous producer->consumer composition runs the consumer on everything the producer emitted *)
 Theorem c01_seq_outs : forall A B C (n1 : node A B) (n2 : node B C) is,
@@ -205,6 +206,18 @@ Module IPSetIndex.
       forall sid vs, alookup sid (v_sets (view_of ops1)) = Some vs -> forall m, In m (F1 sid) <-> In m (F2 sid).
   Proof. exact InstC04.ipset_index_history_free. Qed.
   Print Assumptions c01_node_function_of_state_ipsetidx.
+
+  (* the same index AS A NODE of the abstract graph (NodeC04.v): inputs = C04's operations with net state view_of,
+     outputs = per operation the member added/removed events it fires, net state = the member family accumulated by
+     the consumer (None = an event that is illegal where it arrives).  History-free for every history inside the
+     model's domain, every iteration order and sound pruning: every existing IP set holds exactly spec_members of the
+     current view, nothing is held for IP sets that do not exist. *)
+  Theorem c01_ipset_index_node_hf :
+    forall sel_of shuffle prune_ep prune_set, oracles_ok shuffle prune_ep prune_set ->
+    hf (X := NodeC04.X4) (Y := NodeC04.Y4) (NodeC04.node4 shuffle prune_ep prune_set) (NodeC04.admitted4 sel_of)
+       (fun _ => True) NodeC04.wanted.
+  Proof. exact NodeC04.node4_hf. Qed.
+  Print Assumptions c01_ipset_index_node_hf.
 End IPSetIndex.
 
 Module InheritIndex.
